@@ -548,6 +548,12 @@ fn vp_native_generated_responses_decoded() {
         cases += 1;
         match got { Ok(b) => assert!(b == g.body, "case {} of seed {:x} ({}): {} bytes read, the payload has {}; head {:?}", i, seed, g.what, b.len(), g.body.len(), String::from_utf8_lossy(&g.wire[..g.wire.len().min(300)])),
                     Err(e) => panic!("case {} of seed {:x} ({}): {}; head {:?}", i, seed, g.what, e, String::from_utf8_lossy(&g.wire[..g.wire.len().min(300)])) }
+        // the same body through caller reads of every size, empty buffers included: an empty read says nothing about the end of the body
+        use std::io::Read;
+        let mut resp = parse_response(BaseStream::mock(g.wire.clone()), &req, req.url()).unwrap();
+        let mut out = Vec::new();
+        loop { let want = *r.pick(&[0usize, 1, 2, 63, 4096, 100_000]); let mut b = vec![0u8; want]; let k = resp.read(&mut b).unwrap_or_else(|e| panic!("case {} of seed {:x} ({}): read: {}", i, seed, g.what, e)); out.extend_from_slice(&b[..k]); if k == 0 && want > 0 { break; } }
+        assert!(out == g.body, "case {} of seed {:x} ({}): reads of mixed sizes delivered {} bytes, the payload has {}", i, seed, g.what, out.len(), g.body.len());
     } }
     println!("VP-NATIVE generated_responses_decoded cases={}", cases);
 }
